@@ -55,7 +55,7 @@ def classify(out):
     return "unknown", None
 
 
-def run_contracts(modname, names, timeout, known=(), property_id=""):
+def run_contracts(modname, names, timeout, known=(), property_id="", hunt_only=False):
     """returns the `extra` dict merged into the evidence by symx.cli"""
     mod = importlib.import_module(modname)
     pyfile = mod.__file__
@@ -115,6 +115,14 @@ def run_contracts(modname, names, timeout, known=(), property_id=""):
             extra["inconclusive"].append(f"crosshair:{n} ({st})")
     extra["evaluations"] = len(names)
     extra["distinct_nontrivial"] = extra["discharged"]
+    if hunt_only:
+        # time-boxed counterexample search over free strings: reported, but not counted as obligations
+        # (a condition that comes back 'Confirmed' is still listed under coverage.conditions)
+        extra["coverage"]["role"] = "bug-hunt only: not counted among the obligations"
+        extra["coverage"]["not_confirmed"] = list(extra["inconclusive"])
+        extra["obligations"] = 0
+        extra["discharged"] = 0
+        extra["inconclusive"] = []
     return extra
 
 
